@@ -557,6 +557,10 @@ def resolve_type_params(
 
     for base in get_orig_bases(typ):
         base_type_params = collect_type_params(base)
+        if get_type_origin(base) is typing.Generic:
+            # an explicit Generic[...] base alone defines the parameter order
+            type_params = list(base_type_params)
+            break
         for type_param in base_type_params:
             if type_param not in type_params:
                 type_params.append(type_param)
